@@ -131,15 +131,21 @@ def _job(version):
                 p = os.path.join(work, 'v.xml')
                 open(p, 'w', encoding='utf-8').write(t)
                 problem = None
+                res = None
                 try:
                     if not lmf.is_lmf(p):
-                        problem = 'is_lmf() is False for a valid document'
+                        problem = 'LOAD: is_lmf() is False for a valid document'
                     res = lmf.load(p, progress_handler=None)
-                    scan = lmf.scan_lexicons(p)
-                    if scan != _project(res):
-                        problem = f'scan_lexicons {scan} != load {_project(res)}'
                 except Exception as exc:   # noqa: BLE001
-                    problem = f'valid document rejected: {type(exc).__name__}: {exc}'
+                    problem = f'LOAD: valid document rejected by load(): {type(exc).__name__}: {exc}'
+                if problem is None:
+                    # the pre-scan on its own: only these problems can belong to known finding K6
+                    try:
+                        scan = lmf.scan_lexicons(p)
+                        if scan != _project(res):
+                            problem = f'SCAN: scan_lexicons {scan} != load {_project(res)}'
+                    except Exception as exc:   # noqa: BLE001
+                        problem = f'SCAN: scan_lexicons raises on a valid document: {type(exc).__name__}: {exc}'
                 results.append((version, doc, 'valid', label, problem, t if problem else None))
             for label, t in faults(text, version):
                 if t == text:
